@@ -271,7 +271,7 @@ class Gen:
 
 # ---------------------------------------------------------------------------------------------------------
 
-KINDS = ("skip", "tok", "return", "continue", "reset_continue", "switch", "switch_return", "ok", "err")
+KINDS = ("skip", "tok", "return", "continue", "reset_continue", "reset_return", "switch", "switch_return", "ok", "err")
 
 
 def lexer_text(d, lname="L"):
@@ -307,6 +307,8 @@ def lexer_text(d, lname="L"):
                 out.append("%s%s => |lexer| { %s lexer.continue_() }," % (ind, lhs, log))
             elif k == "reset_continue":
                 out.append("%s%s => |lexer| { %s lexer.reset_match(); lexer.continue_() }," % (ind, lhs, log))
+            elif k == "reset_return":
+                out.append("%s%s => |lexer| { %s lexer.reset_match(); lexer.return_(%d) }," % (ind, lhs, log, rid))
             elif k == "switch":
                 out.append("%s%s => |lexer| { %s lexer.switch(%sRule::%s) }," % (ind, lhs, log, lname, r["to"]))
             elif k == "switch_return":
@@ -429,6 +431,8 @@ def reference_fn(d, N, m):
                 body = lg
             elif k == "reset_continue":
                 body = lg + " ms = pos;"
+            elif k == "reset_return":
+                body = lg + " ms = pos; item = RefItem::Tok(locs[ms], %d, locs[pos]);" % rid
             elif k == "switch":
                 body = lg + " rs = %d;" % to
             elif k == "switch_return":
